@@ -1,4 +1,4 @@
-mod ctx; mod model; mod rng; mod util; mod props; mod chartable; mod render; mod gen; mod corpus;
+mod ctx; mod model; mod rng; mod util; mod props; mod chartable; mod render; mod gen; mod corpus; mod wf; mod recipe_sexp;
 use ctx::{Ctx, Known};
 
 fn load_known(path: &str) -> Vec<Known> {
@@ -12,6 +12,7 @@ fn load_known(path: &str) -> Vec<Known> {
 fn main() {
     let a: Vec<String> = std::env::args().collect();
     if a.len() == 3 && a[1] == "chartable" { chartable::generate(&a[2]); return; }
+    if a.len() == 4 && a[1] == "c03worker" { util::install_panic_hook(); props::c03::worker(&a[2], a[3].parse().unwrap_or(0)); return; }
     if a.len() < 7 { eprintln!("usage: harness <prop> <quick|thorough> <seed> <driver> <known.json> <out.json>"); std::process::exit(2); }
     let (prop, tier, seed, driver, known, out) = (&a[1], &a[2], a[3].parse::<u64>().unwrap_or(1), &a[4], &a[5], &a[6]);
     util::install_panic_hook();
@@ -20,9 +21,22 @@ fn main() {
         "C11" => props::c11::run(&mut ctx),
         "C12" => props::c12::run(&mut ctx),
         "C09" => props::c09::run(&mut ctx),
+        "C08" => props::c08::run(&mut ctx),
+        "C01" => props::c01::run(&mut ctx),
         "C04" => props::c04::run(&mut ctx),
         "C06" => props::c06::run(&mut ctx),
         "C10" => props::c10::run(&mut ctx),
+        "C07" => props::c07::run(&mut ctx),
+        "C02" => props::c02::run(&mut ctx),
+        "C03" => props::c03::run(&mut ctx),
+        "C14" => props::c14::run(&mut ctx),
+        "C05" => props::c05::run(&mut ctx),
+        "C17" => props::c17::run(&mut ctx),
+        "C18" => props::c18::run(&mut ctx),
+        "C13" => props::c13::run(&mut ctx),
+        "C15" => props::c15::run(&mut ctx),
+        #[cfg(feature = "ffi")]
+        "C19" => props::c19::run(&mut ctx),
         _ => { eprintln!("unknown property {prop}"); std::process::exit(2); }
     }
     ctx.finish(out);
